@@ -22,11 +22,12 @@ namespace Chan
 abbrev LFun := String → String → Bool
 
 theorem filter_map_congr {α β : Type} {l : List α} {p q : α → Bool} {f g : α → β}
-    (hp : ∀ x ∈ l, p x = q x) (hf : ∀ x ∈ l, f x = g x) : (l.filter p).map f = (l.filter q).map g := by
+    (hp : ∀ x ∈ l, p x = q x) (hf : ∀ x ∈ l, q x = true → f x = g x) :
+    (l.filter p).map f = (l.filter q).map g := by
   rw [List.filter_congr hp]
   apply List.map_congr_left
   intro x hx
-  exact hf x (List.mem_filter.1 hx).1
+  exact hf x (List.mem_filter.1 hx).1 (List.mem_filter.1 hx).2
 
 theorem filter_true' {α : Type} (l : List α) : l.filter (fun _ => true) = l :=
   List.filter_eq_self.2 (by simp)
@@ -200,7 +201,7 @@ theorem pruneApp_eq_sweepP {d : Chan} (h : d.PInv) (L : LFun) (app : String) {no
       · simp [h1, h2]
       · simp [h1]
       · simp [h1]
-    · intro m _
+    · intro m _ _
       simp only [Function.comp]
       split <;> rfl
   -- the old nameplate ids, as a set
@@ -252,7 +253,7 @@ theorem pruneApp_eq_sweepP {d : Chan} (h : d.PInv) (L : LFun) (app : String) {no
     · intro m _
       simp only [Function.comp]
       split <;> rfl
-    · intro m _
+    · intro m _ _
       by_cases h1 : m.app = app
       · subst h1; simp [stamp]
       · simp [stamp, h1]
@@ -325,7 +326,7 @@ theorem sweepP_sweepP :
   · apply List.filter_congr; intro x _; simp [hj]; grind
   · apply filter_map_congr
     · intro x _; simp [hi]; grind
-    · intro x _; exact stamp_stamp x
+    · intro x _ _; exact stamp_stamp x
   · apply List.filter_congr; intro x _; simp [hi]; grind
   · apply List.filter_congr; intro x _; simp [hi]; grind
 
